@@ -354,6 +354,10 @@ class Initiator(DataExchangeProtocol):
             error = "received NFC-DEP NACK PDU from Target"
             raise nfc.clf.ProtocolError(error)
 
+        if res.pfb.fmt == DEP_RES.TimeoutExtension and len(res.data) == 0:
+            error = "received NFC-DEP RTOX PDU without RTOX value"
+            raise nfc.clf.ProtocolError(error)
+
         return res
 
     def send_req_recv_res(self, req, timeout):
